@@ -48,7 +48,11 @@ def claims_of(d):
 
 
 def malformed_proof(d):
-    return (d.get("proof") or {}).get("shape") == "malformed" or any((c.get("proof") or {}).get("shape") == "malformed" for c in d.get("vcs") or [])
+    """members that JSON-LD reads (x == [x]) but that no longer decode into the Go types: outside the contract's domain"""
+    def bad(c):
+        st = c.get("statuses")
+        return (c.get("proof") or {}).get("shape") == "malformed" or st is None or any(not e.get("entryValid", True) for e in st) or c.get("subjects") is None
+    return bad(d) if "vcs" not in d else ((d.get("proof") or {}).get("shape") == "malformed" or any(bad(c) for c in d.get("vcs") or []))
 
 
 def strict_vp(d):
@@ -156,6 +160,24 @@ def run(ctx):
             ctx.violation("C01:own-output-rejected:" + label, f"document produced by the node's own issuer/wallet is rejected: {impl[i]}",
                           "own-output-rejected.jsonl", replay_text(i))
     ctx.oblige("oracle:own-output-verifies(impl)", own_rejected == 0, f"{own_rejected} rejected of {len(bases)}")
+
+    # a credential revoked on the issuer's status list must be reported revoked whenever the verifier holds or can obtain a
+    # valid list — also when, later, only a tampered list (or nothing) is served.  (Never having been able to fetch a list
+    # is the documented soft fail: reported valid.)
+    revoked_accepted = 0
+    n_status = 0
+    for i, op in enumerate(ops):
+        if op.get("op") == "vc" and op.get("mut") == "status-revoked":
+            n_status += 1
+            soft = "down-cold" in op.get("label", "")
+            if impl[i].startswith("ok") and not soft:
+                revoked_accepted += 1
+                mode = op["label"].split(":")[2] if op["label"].count(":") >= 2 else ""
+                ctx.violation("C01:revoked-credential-reported-valid:" + (mode or "honest") + ("@later" if "@later" in op["label"] else ""),
+                              f"{op['label']}: the credential is revoked on its issuer's status list, the verifier had a valid list, and Verify reports it valid",
+                              "revoked-accepted.jsonl", replay_text(i))
+    ctx.oblige("oracle:status-list-revoked-credential-is-rejected(impl)", revoked_accepted == 0 and n_status > 0 or bool(ctx.replay),
+               f"{revoked_accepted} accepted of {n_status}")
 
     kinds = Counter()
     verdicts = Counter()
